@@ -506,7 +506,12 @@ macro_rules! observe_element {
                     vloc: a.value_source_location().map(loc),
                 })
                 .collect(),
-            ns: el.namespace_uri().to_string(),
+            ns: {
+                // the two accessors must name the same namespace
+                let a = el.namespace_uri().to_string();
+                let b = el.namespace_uri_c_str().to_string_lossy().into_owned();
+                if a == b { a } else { format!("{a} (namespace_uri) != {b} (namespace_uri_c_str)") }
+            },
             self_closing: el.is_self_closing(),
             can_have_content: el.can_have_content(),
             removed: el.removed(),
